@@ -7,6 +7,7 @@
 package c15
 
 import (
+	"strconv"
 	"bytes"
 	"fmt"
 	"net"
@@ -37,6 +38,9 @@ type sess struct {
 	lsts  map[string]*fake.Listener
 	dials []string
 	req   uint32
+	// check-ins whose handler panicked or that were not answered with 200 (a panic inside a
+	// request is recovered by the HTTP layer: it does not reach the scheduler's thread)
+	reqFaults []string
 }
 
 func newSess(c *explore.Chooser, horizon int, focus ...string) *sess {
@@ -70,7 +74,12 @@ func (se *sess) socksCmd(cmd, param string) any {
 
 // tasks drains the agent's queue through a real check-in and returns the decoded tasks.
 func (se *sess) tasks(subs ...demonwire.Sub) []demonwire.Task {
-	_, t, _ := se.ts.CheckIn(idA, 1, subs...)
+	res, t, _ := se.ts.CheckIn(idA, 1, subs...)
+	if res.Panic != nil && !vsched.IsAbort(res.Panic) {
+		se.reqFaults = append(se.reqFaults, fmt.Sprintf("check-in handler: %v @ %s", res.Panic, res.Stack))
+	} else if res.Panic == nil && res.Status != 200 && !se.s.Aborted() {
+		se.reqFaults = append(se.reqFaults, fmt.Sprintf("check-in answered with status %d", res.Status))
+	}
 	var out []demonwire.Task
 	for _, x := range t {
 		if x.Cmd != demonwire.NoJob {
@@ -378,6 +387,7 @@ func runClient(flights [][][]byte, eofAfter bool, answer func(id uint32) *demonw
 	se.s.Run()
 	res.out = conn.OutBytes()
 	res.panics = append(res.panics, se.s.Panics...)
+	res.panics = append(res.panics, se.reqFaults...)
 	res.deadlock, res.why, res.horizon, res.held = se.s.Deadlock, se.s.DeadlockWhy, se.s.HorizonHit, se.s.Held()
 	return res
 }
@@ -681,6 +691,9 @@ func runTables(r *ev.Run, only int) {
 	if r.Thorough() {
 		bound = 2
 	}
+	if v, err := strconv.Atoi(os.Getenv("VERIF_C15_BOUND")); err == nil {
+		bound = v // experiments only
+	}
 	r.Bounds["preemption_bound"] = bound
 	type scen struct {
 		name    string
@@ -757,6 +770,7 @@ func runTables(r *ev.Run, only int) {
 				})
 			}
 			se.s.Run()
+			se.s.Panics = append(se.s.Panics, se.reqFaults...)
 			benign := se.s.Deadlock && se.s.BlockedOnly("accept ", "read ")
 			if benign || (!se.s.Deadlock && !se.s.HorizonHit && len(se.s.Panics) == 0) {
 				// quiescent: now close whatever is left, sequentially (no scheduler installed)
@@ -768,6 +782,14 @@ func runTables(r *ev.Run, only int) {
 				svr = append(svr, s.Addr)
 			}
 			obs := fmt.Sprintf("svr=%v cli=%d", svr, len(se.a.SocksCli))
+			if pat := os.Getenv("VERIF_C15_TRACE"); pat != "" {
+				for i, e := range se.s.Trace {
+					if strings.Contains(e, pat) && i+1 < len(se.s.Trace) && !strings.HasPrefix(se.s.Trace[i+1], strings.SplitN(e, ":", 2)[0]+":") {
+						fmt.Fprintln(os.Stderr, "TRACE", c.Choices(), strings.Join(se.s.Trace[i:], " | "))
+						break
+					}
+				}
+			}
 			outcomes[obs] = true
 			detail := map[string]any{"scenario": sc.name, "choices": c.Choices(), "schedule_tail": tail(se.s.Trace, 40)}
 			switch {
@@ -875,13 +897,14 @@ func Run(r *ev.Run) {
 		r.Violate("harness/not-instrumented", "C15 needs the sched build", nil)
 		return
 	}
-	// five independent work items, one worker process each (the net hooks and the
+	// six independent work items, one worker process each (the net hooks and the
 	// teamserver globals are per process)
-	par.Run(r, 5, 25*time.Minute, func(i, n int, r *ev.Run) {
+	par.Run(r, 6, 25*time.Minute, func(i, n int, r *ev.Run) {
 		if n == 1 {
 			runConformance(r)
 			runIntegrity(r)
 			runTables(r, -1)
+			runTablesThreeClients(r)
 			return
 		}
 		switch i {
@@ -889,6 +912,8 @@ func Run(r *ev.Run) {
 			runConformance(r)
 		case 1:
 			runIntegrity(r)
+		case 5:
+			runTablesThreeClients(r)
 		default:
 			runTables(r, i-2)
 		}
